@@ -29,10 +29,6 @@ theorem frames_map (fr : List CDSFrame) :
 
 /-- what the partial theorem assumes about the CDS arguments -/
 structure CdsHyp (exS exE : List Int) (cdsS cdsE : Option (List Int)) : Prop where
-  /-- F-C19m: both CDS lists empty is the IndexError case -/
-  nonempty : ¬ (cdsS = some [] ∧ cdsE = some [])
-  /-- F-C19g -/
-  nn : ∀ cs ce, cdsS = some cs → cdsE = some ce → ∀ b ∈ cs.zip ce, 0 ≤ b.1
   /-- F-C19i -/
   asc : ∀ cs ce, cdsS = some cs → cdsE = some ce → Spec.Validate.ascending (cs.zip ce) = true
   /-- F-C19h: a CDS whose outer bounds lie within the exon span lies inside the exons -/
@@ -56,17 +52,26 @@ theorem txCds_spec (exS exE : List Int) (st : Strand) (cdsS cdsE : Option (List 
   · simp [txCds, pure, Except.pure]
   · simp [txCds, raise, cdsPart]
   · simp [txCds, raise, cdsPart]
-  · have hnn := H.nn cs ce rfl rfl
-    have hasc := H.asc cs ce rfl rfl
+  · have hasc := H.asc cs ce rfl rfl
     by_cases hlen : cs.length = ce.length
-    · -- non-empty lists
-      have hpos : 0 < cs.length := by
-        cases cs with
-        | nil =>
-            cases ce with
-            | nil => exact absurd ⟨rfl, rfl⟩ H.nonempty
-            | cons _ _ => simp at hlen
-        | cons _ _ => simp
+    · by_cases hz : cs.length = 0
+      · -- empty lists: refused (cb56bb9); an empty CDS is not valid
+        have hvf : ∀ f, Spec.Validate.validCDS cs ce f = false := by
+          intro f
+          rw [Bool.eq_false_iff]
+          intro h
+          simp only [Spec.Validate.validCDS, Spec.Validate.validBlocks, Bool.and_eq_true, decide_eq_true_eq] at h
+          have := h.1.1.1.1.2
+          omega
+        have hunf : txCds x0 xN st (some cs) (some ce) cdsF = raise .InvalidCDSInterval := by
+          simp only [txCds]
+          rw [if_neg (not_not_intro hlen), if_pos hz]
+        rw [hunf]
+        show cdsPart _ _ _ _ = false
+        rcases cdsF with _ | fr
+        · simp [cdsPart, specF]
+        · simp only [cdsPart, specF, Option.map_some, hvf, Bool.false_and]
+      have hpos : 0 < cs.length := by omega
       obtain ⟨c0, hc0⟩ := head?_some_of_pos cs hpos
       obtain ⟨cN, hcN⟩ := getLast?_some_of_pos ce (by omega)
       obtain ⟨cN', hcN'⟩ := getLast?_some_of_pos cs hpos
@@ -101,7 +106,7 @@ theorem txCds_spec (exS exE : List Int) (st : Strand) (cdsS cdsE : Option (List 
                 if fr.length ≠ cs.length then raise .InvalidCDSInterval
                 else (mkCDS cs ce st (fr.map FP.frame)).bind (fun c => pure (some c)) := by
         simp only [txCds, hc0, hcN]
-        rw [if_neg (not_not_intro hlen)]
+        rw [if_neg (not_not_intro hlen), if_neg (by omega)]
         rfl
       rw [hunf]
       by_cases hlo : c0 < x0
@@ -139,11 +144,11 @@ theorem txCds_spec (exS exE : List Int) (st : Strand) (cdsS cdsE : Option (List 
             by_cases hfl : fr.length = cs.length
             · rw [if_neg (not_not_intro hfl)]
               obtain ⟨h1, h2⟩ := mkCDS_cases cs ce st (fr.map FP.frame)
-              have hvi := validCDS_iff cs ce (fr.map FP.frame) hnn
+              have hvi := validCDS_iff cs ce (fr.map FP.frame)
               rw [frames_map] at hvi
               by_cases ha : acceptedCDS cs ce (fr.map FP.frame)
               · obtain ⟨s0, eN, hs, he, hb⟩ := h1 ha
-                obtain ⟨hmn, hmx⟩ := bounds_ascending cs ce s0 eN hlen hs he ha.1.2.1 hasc
+                obtain ⟨hmn, hmx⟩ := bounds_ascending cs ce s0 eN hlen hs he (fun b hb => (ha.1.2 b hb).2) hasc
                 rw [hb]
                 have hin := H.inside cs ce c0 cN x0 xN rfl rfl hc0 hcN hx0 hxN (by omega) (by omega)
                 show cdsPart _ _ _ _ = true ∧ _
@@ -171,22 +176,24 @@ theorem txCds_spec (exS exE : List Int) (st : Strand) (cdsS cdsE : Option (List 
         exact hlen h.1.1.1.1.1
       rcases cdsF with _ | fr <;> simp [txCds, hlen, raise, cdsPart, specF, hvf]
 
-/-- full statement (fails: F-C19g, F-C19h, F-C19i, F-C19m): for ALL arguments.
-    Proved for non-negative exon starts in ascending order and CDS arguments satisfying `CdsHyp`. -/
+/-- full statement (fails: F-C19h, F-C19i): for ALL arguments.
+    Proved for exon lists in ascending order and CDS arguments satisfying `CdsHyp` (negative starts and empty CDS
+    lists are refused since 0fcdb58 / cb56bb9). -/
 theorem mkTx_spec_partial (exS exE : List Int) (st : Strand) (cdsS cdsE : Option (List Int))
     (cdsF : Option (List CDSFrame))
-    (hnn : ∀ b ∈ exS.zip exE, 0 ≤ b.1) (hasc : Spec.Validate.ascending (exS.zip exE) = true)
+    (hasc : Spec.Validate.ascending (exS.zip exE) = true)
     (H : CdsHyp exS exE cdsS cdsE) :
     Spec.Validate.okMkTx exS exE cdsS cdsE (specF cdsF) (outOf projTx (mkTx exS exE st cdsS cdsE cdsF)) = true := by
   obtain ⟨h1, h2⟩ := initLoc_cases exS exE st
-  have hvb := validBlocks_iff exS exE hnn
+  have hvb := validBlocks_iff exS exE
   rw [show Spec.Validate.okMkTx exS exE cdsS cdsE (specF cdsF) = fun o => Spec.Validate.okMkTx exS exE cdsS cdsE (specF cdsF) o from rfl]
   by_cases ha : acceptedInit exS exE
   · obtain ⟨bs, hb⟩ := h1 ha
     obtain ⟨x0, hx0⟩ := head?_some_of_pos exS ha.1.2
     obtain ⟨xN, hxN⟩ := getLast?_some_of_pos exE (by have := ha.1.1; have := ha.1.2; omega)
-    obtain ⟨hmin, hmax⟩ := bounds_ascending exS exE x0 xN ha.1.1 hx0 hxN ha.2.1 hasc
-    have hc := txCds_spec exS exE st cdsS cdsE cdsF x0 xN hx0 hxN hmin hmax ha.2.1 H
+    have hexv : ∀ b ∈ exS.zip exE, b.1 ≤ b.2 := fun b hb => (ha.2 b hb).2
+    obtain ⟨hmin, hmax⟩ := bounds_ascending exS exE x0 xN ha.1.1 hx0 hxN hexv hasc
+    have hc := txCds_spec exS exE st cdsS cdsE cdsF x0 xN hx0 hxN hmin hmax hexv H
     have hmk : mkTx exS exE st cdsS cdsE cdsF =
         (txCds x0 xN st cdsS cdsE cdsF).bind (fun cds => pure ⟨x0, xN, exS.zip exE, cds⟩) := by
       simp only [mkTx, hb, hx0, hxN, bind, Except.bind]
@@ -217,57 +224,76 @@ theorem mkTx_spec_partial (exS exE : List Int) (st : Strand) (cdsS cdsE : Option
       rw [Bool.eq_false_iff]; exact fun h => ha (hvb.mp h)
     simp [mkTx, hk, bind, Except.bind, outOf, Spec.Validate.okMkTx, validTx_eq, hvf]
 
-/-- exactly when the constructor fails with an internal error (F-C19m): the exon lists are accepted and both CDS
-    lists are empty -/
-theorem mkTx_internal_iff (exS exE : List Int) (st : Strand) (cdsS cdsE : Option (List Int))
-    (cdsF : Option (List CDSFrame)) :
-    (∃ c, mkTx exS exE st cdsS cdsE cdsF = .error (.internal c)) ↔
-      (acceptedInit exS exE ∧ cdsS = some [] ∧ cdsE = some []) := by
-  obtain ⟨h1, h2⟩ := initLoc_cases exS exE st
-  by_cases ha : acceptedInit exS exE
-  · obtain ⟨bs, hb⟩ := h1 ha
-    obtain ⟨x0, hx0⟩ := head?_some_of_pos exS ha.1.2
-    obtain ⟨xN, hxN⟩ := getLast?_some_of_pos exE (by have := ha.1.1; have := ha.1.2; omega)
-    have hmk : mkTx exS exE st cdsS cdsE cdsF =
-        (txCds x0 xN st cdsS cdsE cdsF).bind (fun cds => pure ⟨x0, xN, exS.zip exE, cds⟩) := by
-      simp only [mkTx, hb, hx0, hxN, bind, Except.bind]
-    rw [hmk]
-    rcases cdsS with _ | cs <;> rcases cdsE with _ | ce
-    · simp [txCds, Except.bind, pure, Except.pure]
-    · simp [txCds, Except.bind, raise]
-    · simp [txCds, Except.bind, raise]
-    · by_cases hlen : cs.length = ce.length
-      · cases cs with
-        | nil =>
-            cases ce with
-            | nil => simp [txCds, Except.bind, ha]
-            | cons _ _ => simp at hlen
-        | cons c0 ct =>
-            obtain ⟨cN, hcN⟩ := getLast?_some_of_pos ce (by simp at hlen; omega)
-            have : ¬ (∃ c, (txCds x0 xN st (some (c0 :: ct)) (some ce) cdsF).bind
-                (fun cds => (pure ⟨x0, xN, exS.zip exE, cds⟩ : V TxOut)) = .error (.internal c)) := by
-              rintro ⟨c, hc⟩
-              simp only [txCds, List.head?_cons, hcN] at hc
-              rw [if_neg (not_not_intro hlen)] at hc
-              have hn := mkCDS_noInternal (c0 :: ct) ce st
-              (repeat' split at hc) <;> simp only [Except.bind, raise, bind, pure, Except.pure] at hc <;>
-                (try cases hc)
-              all_goals
-                rename_i fr _
-                cases hm : mkCDS (c0 :: ct) ce st (List.map FP.frame fr) with
-                | ok v => rw [hm] at hc; cases hc
-                | error e =>
-                    rw [hm] at hc
-                    cases e with
-                    | doc k => cases hc
-                    | internal c' => exact hn _ c' hm
-            simp [this]
-      · simp [txCds, hlen, Except.bind, raise]
-        intro _ h1 h2
-        subst h1; subst h2
-        exact hlen rfl
-  · obtain ⟨k, hk⟩ := h2 ha
-    simp [mkTx, hk, bind, Except.bind, ha]
+theorem txCds_noInternal (x0 xN : Int) (st : Strand) (cdsS cdsE : Option (List Int)) (cdsF : Option (List CDSFrame)) :
+    NoInternal (txCds x0 xN st cdsS cdsE cdsF) := by
+  intro c hc
+  rcases cdsS with _ | cs <;> rcases cdsE with _ | ce
+  · simp [txCds, pure, Except.pure] at hc
+  · simp [txCds, raise] at hc
+  · simp [txCds, raise] at hc
+  · simp only [txCds] at hc
+    by_cases hlen : cs.length ≠ ce.length
+    · rw [if_pos hlen] at hc; cases hc
+    · rw [if_neg hlen] at hc
+      by_cases hz : cs.length = 0
+      · rw [if_pos hz] at hc; cases hc
+      · rw [if_neg hz] at hc
+        cases h1 : cs.head? with
+        | none => simp only [h1] at hc; cases hc
+        | some c0 =>
+            cases h2 : ce.getLast? with
+            | none => simp only [h1, h2] at hc; cases hc
+            | some cN =>
+                simp only [h1, h2] at hc
+                by_cases hlo : c0 < x0
+                · rw [if_pos hlo] at hc; cases hc
+                · rw [if_neg hlo] at hc
+                  by_cases hhi : cN > xN
+                  · rw [if_pos hhi] at hc; cases hc
+                  · rw [if_neg hhi] at hc
+                    rcases cdsF with _ | fr
+                    · cases hc
+                    · simp only [] at hc
+                      by_cases hfl : fr.length ≠ cs.length
+                      · rw [if_pos hfl] at hc; cases hc
+                      · rw [if_neg hfl] at hc
+                        cases hm : mkCDS cs ce st (List.map FP.frame fr) with
+                        | ok v => rw [hm] at hc; cases hc
+                        | error e =>
+                            rw [hm] at hc
+                            cases e with
+                            | doc k => cases hc
+                            | internal c' => exact mkCDS_noInternal cs ce st _ c' hm
+
+/-- for ALL arguments the constructor ends in an object or a documented class (before cb56bb9 it ended in IndexError
+    exactly when the exon lists were accepted and both CDS lists were empty: F-C19m) -/
+theorem mkTx_noInternal (exS exE : List Int) (st : Strand) (cdsS cdsE : Option (List Int))
+    (cdsF : Option (List CDSFrame)) : NoInternal (mkTx exS exE st cdsS cdsE cdsF) := by
+  intro c hc
+  unfold mkTx at hc
+  cases hi : initLoc exS exE st with
+  | error e =>
+      rw [hi] at hc
+      cases e with
+      | doc k => cases hc
+      | internal c' => exact initLoc_noInternal exS exE st c' hi
+  | ok bs =>
+      rw [hi] at hc
+      simp only [bind, Except.bind] at hc
+      split at hc
+      · cases ht : txCds _ _ st cdsS cdsE cdsF with
+        | ok v => rw [ht] at hc; cases hc
+        | error e =>
+            rw [ht] at hc
+            cases e with
+            | doc k => cases hc
+            | internal c' => exact txCds_noInternal _ _ st cdsS cdsE cdsF c' ht
+      · cases hc
+
+/-- regression fact (F-C19m, repaired by cb56bb9): empty CDS lists are refused with InvalidCDSIntervalError -/
+theorem mkTx_empty_cds_refused :
+    mkTx [1] [5] .plus (some []) (some []) (some []) = .error (.doc .InvalidCDSInterval) := by
+  simp [mkTx, initLoc, mkSingle, txCds, liftR, bind, Except.bind, pure, Except.pure, raise]
 
 /-- F-C19h: a CDS lying partly in an intron (exons [5,10) [15,20), CDS [7,13)) IS accepted. -/
 theorem mkTx_cds_in_intron_witness :
@@ -290,7 +316,7 @@ theorem mkTx_cds_in_intron_witness :
 theorem mkTx_unsorted_witness :
     (mkTx [15, 5] [20, 10] .plus none none none).toOption.map projTx = some (15, 10, false, 0, 0) := by
   have h1 : ∃ bs, initLoc [15, 5] [20, 10] .plus = .ok bs :=
-    (initLoc_cases [15, 5] [20, 10] .plus).1 ⟨⟨rfl, by decide⟩, by decide, by decide⟩
+    (initLoc_cases [15, 5] [20, 10] .plus).1 ⟨⟨rfl, by decide⟩, by decide⟩
   obtain ⟨bs, hb⟩ := h1
   simp [mkTx, txCds, hb, bind, Except.bind, pure, Except.pure, projTx, Except.toOption]
 
